@@ -17,7 +17,7 @@ RULE = ('case = a sim chain of 4..9 blocks with 1..64 real transactions each; fo
 ASSUMPTIONS = ['SHA-256d collision resistance', 'txid of the generated legacy transactions taken from an independent parser (vlib/ref/minitx.py)',
                'mutations that leave the recomputed root unchanged (side flip of a duplicated last node, position bits above the tree depth) '
                'are expected to still verify: the statement\'s criterion is met; counted as ineffective']
-REQUIRED_HITS = ['reuse.checked', 'genuine.accepted', 'genuine.via_single_batch', 'mut.branch_digit', 'mut.pos_bit', 'mut.truncate', 'mut.extend', 'mut.tx_byte',
+REQUIRED_HITS = ['reorg.in_flight_checked', 'reorg.cache_checked', 'reuse.checked', 'genuine.accepted', 'genuine.via_single_batch', 'mut.branch_digit', 'mut.pos_bit', 'mut.truncate', 'mut.extend', 'mut.tx_byte',
                  'mut.height', 'mut.height_no_header', 'mut.foreign_proof', 'mut.ineffective_still_verifies', 'shape.odd_level', 'shape.single_tx',
                  'shape.64']
 MAXT = (1 << 255) - 1
@@ -62,6 +62,9 @@ class Net:
         self.batch_reply = {}
         self.merkle_reply = {}
         self.calls = 0
+        self.gate = None
+        self.entered = asyncio.Event()
+        self.server_chain = []
 
     async def retriable_call(self, function, *args, **kwargs):
         return await function(*args, **kwargs)
@@ -72,7 +75,14 @@ class Net:
 
     async def get_merkle(self, txid, height):
         self.calls += 1
+        if self.gate is not None:
+            self.entered.set()
+            await self.gate.wait()          # the reply is in flight: the harness changes the header chain meanwhile
         return self.merkle_reply[(txid, height)]
+
+    async def get_headers(self, height, count=2001, b64=False):
+        self.calls += 1
+        return {'hex': b''.join(self.server_chain[height:height + count]).hex(), 'count': len(self.server_chain[height:height + count])}
 
 
 async def _run(rec, case):
@@ -172,6 +182,107 @@ async def _run(rec, case):
             rec.hit('mut.ineffective_still_verifies')
         rec.case(sig, nontrivial=True)
 
+    def mine_on(base, root, ts_delta=800):
+        prev = R.unpack(base[-1])
+        pp = R.unpack(base[-2]) if len(base) >= 2 else None
+        target = R.next_target(MAXT, pp, prev)
+        bits = R.target_to_compact(target)
+        return R.mine(1, R.header_hash(base[-1]), root, r.randbytes(32), prev['timestamp'] + ts_delta, bits, min(target, R.compact_to_target(bits)),
+                      start_nonce=r.getrandbits(30))
+
+    def new_block(k):
+        out = []
+        for _ in range(k):
+            prev_o = Transaction(height=-2).add_outputs([Output.pay_pubkey_hash(r.randrange(1, 10 ** 10), r.randbytes(20))]).outputs[0]
+            t = Transaction().add_inputs([Input.spend(prev_o)]).add_outputs([Output.pay_pubkey_hash(r.randrange(1, 10 ** 9), r.randbytes(20))])
+            out.append((t.raw, bytes.fromhex(minitx.parse(t.raw)['txid'])[::-1]))
+        return out
+
+    await _main_loop(rec, r, blocks, chain, nh, ledger, net, verify, expected, judge, Transaction, header_root)
+    if rec.out_of_time():
+        return
+    # ================= histories in which the header at the transaction's height CHANGES (added after seeded breaks C08-C / C08-D) =====
+    # ---- (1) the header is replaced while the Merkle reply is in flight (maybe_verify_transaction without a proof handed in)
+    h = r.randrange(1, nh)
+    old_txs = blocks[h]
+    alt = new_block(r.choice([1, 2, 5]))
+    fork_hdr = mine_on(chain[:h], M.root([t[1] for t in alt]), ts_delta=801)
+    for which in ('old-proof', 'new-proof'):
+        if which == 'old-proof':
+            i = r.randrange(len(old_txs))
+            raw, leaves = old_txs[i][0], [t[1] for t in old_txs]
+        else:
+            i = r.randrange(len(alt))
+            raw, leaves = alt[i][0], [t[1] for t in alt]
+        proof = {'merkle': [b[::-1].hex() for b in M.branch(leaves, i)], 'pos': i, 'block_height': h}
+        txid = minitx.parse(raw)['txid']
+        net.merkle_reply = {(txid, h): proof}
+        net.gate, net.entered = asyncio.Event(), asyncio.Event()
+        obj = Transaction(raw, height=h)
+        task = asyncio.get_running_loop().create_task(ledger.maybe_verify_transaction(obj, h))
+        await asyncio.wait_for(net.entered.wait(), 30)
+        if which == 'old-proof':
+            added = await hdrs.connect(h, fork_hdr)           # reorg at exactly that height while the request is outstanding
+            if added != 1:
+                raise RuntimeError('harness: fork header rejected')
+            chain[h] = fork_hdr
+        net.gate.set()
+        try:
+            await asyncio.wait_for(task, 30)
+        except Exception as e:  # noqa
+            rec.log('reorg_in_flight_raised.' + type(e).__name__)
+        net.gate = None
+        rec.hit('reorg.in_flight_checked')
+        want = M.fold(bytes.fromhex(txid)[::-1], [bytes.fromhex(b)[::-1] for b in proof['merkle']], i) == header_root(h)
+        if bool(obj.is_verified) != want:
+            rec.violation(f'C08/{"verified-without-valid-proof" if obj.is_verified else "valid-proof-not-accepted"}/header-replaced-while-proof-in-flight',
+                          f'the header at height {h} was replaced while get_merkle was outstanding; the reply ({which}) '
+                          f'{"does not reach" if not want else "reaches"} the header stored at that height now, but is_verified={obj.is_verified}',
+                          {'which': which, 'height': h})
+        rec.case(['reorg_in_flight', which, len(leaves)], nontrivial=True)
+    # ---- (2) verified through the cache, then a reorganisation replaces its block, then looked up through the cache again
+    f = r.randrange(1, nh)                   # first replaced height
+    victim = blocks[f] if chain[f] != fork_hdr or f != h else alt
+    vi = r.randrange(len(victim))
+    vraw, vleaves = victim[vi][0], [t[1] for t in victim]
+    vtxid = minitx.parse(vraw)['txid']
+    vproof = {'merkle': [b[::-1].hex() for b in M.branch(vleaves, vi)], 'pos': vi, 'block_height': f}
+    net.batch_reply = {vtxid: (vraw.hex(), vproof)}
+    first = {}
+    async for txs in ledger.request_transactions(((vtxid, f),), cached=True):
+        first.update(txs)
+    if not first or not list(first.values())[0].is_verified:
+        rec.log('reorg_cache.first_lookup_not_verified(stale tail from scenario 1)')
+        return
+    # the server's new chain: forks at f, is longer than ours; the victim transaction is back in the mempool
+    v2 = list(chain[:f])
+    for k in range(nh - f + 1):
+        v2.append(mine_on(v2, M.root([t[1] for t in new_block(1)]), ts_delta=799))
+    net.server_chain = v2
+    try:
+        await asyncio.wait_for(ledger.receive_header([{'height': len(v2) - 1, 'hex': v2[-1].hex()}]), 60)
+    except Exception as e:  # noqa
+        rec.log('reorg_cache.receive_header_raised.' + type(e).__name__)
+        return
+    stored = bytes(hdrs.io.getvalue())
+    if stored[f * 112:(f + 1) * 112] != v2[f]:
+        rec.log('reorg_cache.reorg_not_applied')
+        return
+    rec.hit('reorg.cache_checked')
+    net.batch_reply = {vtxid: (vraw.hex(), {'block_height': 0})}
+    second = {}
+    async for txs in ledger.request_transactions(((vtxid, 0),), cached=True):
+        second.update(txs)
+    for t in second.values():
+        if t.is_verified:
+            rec.violation('C08/verified-without-valid-proof/cached-across-reorganisation',
+                          f'a transaction verified at height {f} was returned from the cache as verified (height {t.height}) after a reorganisation '
+                          f'replaced the block at that height; the stored header there no longer commits to it', {'first_replaced_height': f, 'tx_height': t.height})
+    rec.case(['reorg_cache', f, nh], nontrivial=True)
+
+
+async def _main_loop(rec, r, blocks, chain, nh, ledger, net, verify, expected, judge, Transaction, header_root):
+    _S['dummy'] = None
     for height in range(1, len(blocks)):
         txs = blocks[height]
         n = len(txs)
